@@ -14,6 +14,7 @@ import common as C
 import gen_formulas as GF
 
 STATIC = ["Model/Kroupa.vo"]
+EXTRA_PROPS = ["C20b"]
 IMPORTS = "From SSP Require Import Model.Kroupa."
 
 
